@@ -304,6 +304,40 @@ def run(tier, seed, replay):
             Jq = qutip.to_choi(Sq)
             lines.append("C08.shuffle " + json.dumps({"n": n, "m": [[int(x.real) for x in row] for row in M]}))
             impl.append([[int(round(x.real)) for x in row] for row in Jq.full()])
+    # chi matrices of maps on several qubits: the process matrix of a product of one-qubit maps is the Kronecker product of
+    # their process matrices (first qubit most significant), and a Pauli acting on one qubit sits at that qubit's index
+    import qutip
+    crng = np.random.default_rng([seed, 88])
+    for _ in range(6 if tier == "quick" else 40):
+        def rnd_map():
+            a, b = (qutip.Qobj(crng.standard_normal((2, 2)) + 1j * crng.standard_normal((2, 2))) for _ in range(2))
+            return qutip.sprepost(a, a.dag()) + float(crng.uniform(-0.5, 1.0)) * qutip.sprepost(b, b.dag())
+        S1, S2 = rnd_map(), rnd_map()
+        try:
+            with core.time_limit(60):
+                chi12 = qutip.to_chi(qutip.super_tensor(S1, S2)).full()
+                c1, c2 = qutip.to_chi(S1).full(), qutip.to_chi(S2).full()
+                back = qutip.to_super(qutip.Qobj(np.kron(c1, c2), dims=[[[2, 2], [2, 2]], [[2, 2], [2, 2]]], superrep="chi"))
+        except Exception as e:
+            rep.violation(core.Violation("C08:chi-product-raises", f"{type(e).__name__}: {e}"[:200], {}))
+            continue
+        rep.evaluations += 1
+        rep.count("chi-product")
+        if np.abs(chi12 - np.kron(c1, c2)).max() > 1e-9 * (1 + np.abs(chi12).max()):
+            rep.violation(core.Violation("C08:chi-product", f"to_chi of a product of two one-qubit maps is not the Kronecker product of their chi matrices (max deviation {np.abs(chi12 - np.kron(c1, c2)).max():.2e})", {}))
+            break
+        if np.abs(back.full() - qutip.super_tensor(S1, S2).full()).max() > 1e-9 * (1 + np.abs(back.full()).max()):
+            rep.violation(core.Violation("C08:chi-product", "a chi matrix written down as the Kronecker product of two one-qubit chi matrices does not convert to the product map", {}))
+            break
+    for pos, lab in ((0, "X x 1"), (1, "1 x X")):
+        P = qutip.tensor(qutip.sigmax(), qutip.qeye(2)) if pos == 0 else qutip.tensor(qutip.qeye(2), qutip.sigmax())
+        chiP = qutip.to_chi(qutip.to_super(P)).full()
+        idx = 4 * 1 + 0 if pos == 0 else 4 * 0 + 1
+        want = np.zeros((16, 16), dtype=complex)
+        want[idx, idx] = 16
+        rep.evaluations += 1
+        if np.abs(chiP - want).max() > 1e-9:
+            rep.violation(core.Violation("C08:chi-pauli-index", f"to_chi of the conjugation by {lab} has its weight at {[int(x) for x in np.argwhere(np.abs(chiP) > 1e-9)[0]]}, not at index {idx} of the Pauli products (first qubit most significant)", {"pauli": lab}))
     model = core.run_driver(lines)
     ndis, first = 0, None
     for line, want, m in zip(lines, impl, model):
